@@ -84,6 +84,8 @@ pub struct Session<'a> {
     pub fresh: bool,
     /// index in the event log where the bootstrap's first poll started
     pub first_poll_log_idx: usize,
+    /// is the tower process still there (always true in-process)
+    pub alive: &'a dyn Fn() -> bool,
 }
 
 async fn get_last_n_blocks<B, T>(poller: &mut ChainPoller<B, T>, mut last_known_block: ValidatedBlockHeader, n: usize) -> Result<Vec<ValidatedBlock>, BlockSourceError>
@@ -174,7 +176,7 @@ pub fn run_session<R>(chain: &SimChain, node: &SimNode, cfg: &TowerCfg, f: impl 
         block_on(chain_monitor.poll_best_tip());
 
         let api = Api::Local(Arc::new(InternalAPI::new(watcher, vec![], bitcoind_reachable.clone(), shutdown_trigger)));
-        let mut session = Session { api, poller: &mut chain_monitor, tower_id: TowerId(tower_pk), reachable: bitcoind_reachable, fresh, first_poll_log_idx };
+        let mut session = Session { api, poller: &mut chain_monitor, tower_id: TowerId(tower_pk), reachable: bitcoind_reachable, fresh, first_poll_log_idx, alive: &|| true };
         Ok(f(&mut session))
     }
 }
